@@ -91,6 +91,14 @@ def measure(job):
             if not cplx and np.iscomplexobj(y):
                 ev.append(("dtype", 1.0, "real input gave complex coefficients"))
         ev.append(("adjoint_shapes", 0.0 if (list(W.H.ishape) == list(W.oshape) and list(W.H.oshape) == list(W.ishape)) else 1.0, "Wavelet.H shapes"))
+        # level / axes given as NumPy integers and lists
+        try:
+            xq = rs.randn(*shape)
+            yq = sp.fwt(xq, wave_name=c["wave"], axes=axes, level=level)
+            yq2 = sp.fwt(xq, wave_name=c["wave"], axes=None if axes is None else [np.int64(a_) for a_ in axes], level=None if level is None else np.int64(level))
+            ev.append(("reconstruct", 0.0 if (yq.shape == yq2.shape and np.array_equal(yq, yq2)) else 1.0, "fwt with level / axes given as NumPy integers vs builtin ints"))
+        except Exception as e:
+            ev.append(("exception", 1.0, "fwt with NumPy-integer level / axes raised %r" % (e,)))
         # the adjoint taken from either side carries the same wavelet / axes / level: Wavelet.H.H, a directly built InverseWavelet
         # and its own adjoint must act like Wavelet.H resp. Wavelet
         if tuple(W.oshape) == spec_osh:
